@@ -50,7 +50,11 @@ func Probearg(ctx context.Context, s string) error {
 	return report(ctx, "probearg", s)
 }
 
+// prep is a dependency of every probe target: in verbose mode mg announces it on stderr.
+func prep() {}
+
 func report(ctx context.Context, target, arg string) error {
+	mg.Deps(prep)
 	cwd, _ := os.Getwd()
 	data, err := io.ReadAll(os.Stdin)
 	if err != nil {
@@ -492,7 +496,14 @@ def observe(r, stdin_sent):
             k, _, v = kv.partition(b"=")
             env[k] = v
         words = [js["target"].encode()] + ([base64.b64decode(js["arg"])] if js["target"] == "probearg" else [])
-        o.update(mode="run", words=words, env=env, origin=js["origin"], built_os=js.get("built_os"), built_arch=js.get("built_arch"), cwd=os.path.realpath(js["cwd"]), verbose=js["verbose"], debug=js["debug"],
+        pre = []
+        for line in err.split(b"\n"):
+            if line.rstrip(b"\r") in (b"PROBE-LOG", b"PROBE-ERR"):
+                break
+            pre.append(line)
+        else:
+            pre = None      # the target's stderr markers are not on stderr at all
+        o.update(mode="run", pre=pre, words=words, env=env, origin=js["origin"], built_os=js.get("built_os"), built_arch=js.get("built_arch"), cwd=os.path.realpath(js["cwd"]), verbose=js["verbose"], debug=js["debug"],
                  gocmd=base64.b64decode(js["gocmd"]), stdout_on=where,
                  stderr_on="stderr" if re.search(rb"^PROBE-ERR\r?$", err, re.M) else ("stdout" if re.search(rb"^PROBE-ERR\r?$", out, re.M) else None),
                  verbose_log=bool(re.search(rb"^PROBE-LOG\r?$", err + b"\n" + out, re.M)),
@@ -597,7 +608,7 @@ def run_cfg(cfg, proj, m, conv, gocache, rng_payload):
     g_m = merged({"v": flag_bool(cfg["v"]), "debug": flag_bool(cfg["debug"]), "gocmd": cfg["gocmd"], "t": tns, "l": cfg["l"], "h": cfg["h"]})
     g_b = merged({"v": flag_bool(cfg["v"]), "debug": None, "gocmd": None, "t": tns, "l": cfg["l"], "h": cfg["h"]})
     g_v = merged({"v": None, "debug": None, "gocmd": None, "t": None, "l": None, "h": None})
-    runs.append({"route": "mage", "given": g_m, "argv": args + lh + tail_m, "env": env_m, "own": own, "cwd": cwd, "dstr": dstr, "wstr": wstr, "obs": observe(r, stdin), "raw": r})
+    runs.append({"route": "mage", "layout": proj.layout, "front_t": tns, "given": g_m, "argv": args + lh + tail_m, "env": env_m, "own": own, "cwd": cwd, "dstr": dstr, "wstr": wstr, "obs": observe(r, stdin), "raw": r})
     # the compiled binary, same options as its flags (-debug / -gocmd exist only as variables)
     own_b = dict(own)
     if cfg["debug"] is not None:
@@ -612,7 +623,7 @@ def run_cfg(cfg, proj, m, conv, gocache, rng_payload):
     env_b = dict(base)
     env_b.update(own_b)
     r = run_proc([proj.bin] + bargs + lh + tail_b, expect_cwd, env_b, stdin=stdin)
-    runs.append({"route": "bin-flags", "given": g_b, "argv": bargs + lh + tail_b, "env": env_b, "own": own_b, "cwd": expect_cwd, "obs": observe(r, stdin), "raw": r})
+    runs.append({"route": "bin-flags", "layout": proj.layout, "given": g_b, "argv": bargs + lh + tail_b, "env": env_b, "own": own_b, "cwd": expect_cwd, "obs": observe(r, stdin), "raw": r})
     # the compiled binary, the options as MAGEFILE_* variables
     own_v = dict(own_b)
     if cfg["v"] is not None:
@@ -626,7 +637,7 @@ def run_cfg(cfg, proj, m, conv, gocache, rng_payload):
     env_v = dict(base)
     env_v.update(own_v)
     r = run_proc([proj.bin] + tail_b, expect_cwd, env_v, stdin=stdin)
-    runs.append({"route": "bin-vars", "given": g_v, "argv": tail_b, "env": env_v, "own": own_v, "cwd": expect_cwd, "obs": observe(r, stdin), "raw": r})
+    runs.append({"route": "bin-vars", "layout": proj.layout, "given": g_v, "argv": tail_b, "env": env_v, "own": own_v, "cwd": expect_cwd, "obs": observe(r, stdin), "raw": r})
     # a "--" standing where the compiled program still expects flags ends ITS flags and is consumed
     acted = words[1:] if (words and words[0] == "--") else words
     return {"runs": runs, "expect_cwd": expect_cwd, "stdin": stdin, "base": base, "words": acted,
@@ -736,6 +747,15 @@ def oracle(cfg, proj, res, conv):
             bad.append(("accessor-verbose", tag + "mg.Verbose()=%r, effective %r" % (o["verbose"], e_verbose)))
         if o["verbose_log"] != e_verbose:
             bad.append(("verbose-effect", tag + "std logger live=%r, effective verbose %r" % (o["verbose_log"], e_verbose)))
+        # what -v / -debug do as seen from outside: the program announces the target (and its dependency) on stderr
+        # before the target writes anything, the front end's debug stream is there or not - presence, not wording
+        ann = announce_observable(r, conv)
+        if ann is not None and o["pre"] is None:
+            bad.append(("stream-wiring", tag + "the target's stderr lines are not on the caller's stderr"))
+        elif ann == "quiet-front" and (len(o["pre"]) > 0) != e_verbose:
+            bad.append(("verbose-announcement", tag + "effective verbose %r, but stderr before the target's own output is %r" % (e_verbose, o["pre"][:3])))
+        elif ann == "debug-front" and len(o["pre"]) == 0:
+            bad.append(("debug-effect", tag + "effective debug, but nothing on stderr before the target's own output"))
         if o["debug"] != e_debug:
             bad.append(("accessor-debug", tag + "mg.Debug()=%r, effective %r" % (o["debug"], e_debug)))
         if o["gocmd"] != e_gocmd:
@@ -769,6 +789,12 @@ def oracle(cfg, proj, res, conv):
         if "rc" in mo and (mo["rc"] != 0 or bo["rc"] != 0):
             continue
         diffs = []
+        am, ab = announce_observable(runs["mage"], conv), announce_observable(runs[route], conv)
+        if am and ab and mo.get("pre") is not None and bo.get("pre") is not None:
+            # byte for byte: the announcements carry no program name; behind a debug stream they are its tail
+            same = (mo["pre"] == bo["pre"]) if am == "quiet-front" else (len(bo["pre"]) == 0 or mo["pre"][-len(bo["pre"]):] == bo["pre"])
+            if not same:
+                diffs.append(("stderr before the target's output", mo["pre"][-3:], bo["pre"][-3:]))
         for k in ("mode", "verbose", "verbose_log", "debug", "gocmd", "timeout", "text", "words"):
             if k == "text" and mo.get("mode") in ("usage", "rejected"):
                 continue       # the usage text names the program by the base name of its file (cache hash / "mage")
@@ -813,6 +839,33 @@ def coq_env(pairs):
     return coq_list(["(%s, %s)" % (cs(k), cs(v)) for k, v in pairs])
 
 
+def announce_observable(run, conv):
+    """Is the stretch of stderr before the target's first own line, in this run, written by nobody but the
+    generated main's / mg's verbose announcements?  Returns None when something else may write there (then nothing is
+    concluded from it), "quiet-front" when only the announcements can, "debug-front" when the front end's debug
+    stream precedes them (mage route with debug on: presence and the tail are still comparable)."""
+    env, route, g = run["env"], run["route"], run["given"]
+
+    def malformed(k, table, skip_empty=True):
+        v = env.get(k)
+        if v is None or v == b"":
+            return False
+        return table.get(v if table is conv["bool"] else v.decode("latin-1")) is None
+    # the generated main warns about a malformed variable it reads as a flag default
+    keys = [b"MAGEFILE_LIST", b"MAGEFILE_HELP"] + ([] if route == "mage" else [b"MAGEFILE_VERBOSE"])
+    if any(malformed(k, conv["bool"]) for k in keys):
+        return None
+    # (through mage a positive -t of the FRONT END replaces the variable before the generated main reads it)
+    if not (route == "mage" and (run.get("front_t") or 0) > 0) and malformed(b"MAGEFILE_TIMEOUT", conv["dur"]):
+        return None
+    if route != "mage":
+        return "quiet-front"
+    if run["layout"] == "both":
+        return None          # the front end warns about magefiles in both places
+    e_debug = g["debug"] if g["debug"] is not None else var_true(env, b"MAGEFILE_DEBUG")
+    return "debug-front" if e_debug else "quiet-front"
+
+
 def coq_case(cfg, proj, res, run, conv, bools):
     cfg = resolved(cfg)
     o = run["obs"]
@@ -846,15 +899,17 @@ def coq_case(cfg, proj, res, run, conv, bools):
     stream = {"stdout": "(Some CallerStdout)", "stderr": "(Some CallerStderr)", None: "None"}
     if o["mode"] == "run" and o.get("timeout") != -1:
         build = os.path.join(proj.d, "magefiles") if o["origin"] == "mfdir" else proj.d
-        obs = ("{| o_mode := OMode MRun; o_verbose_log := %s; o_verbose := %s; o_debug := %s; o_gocmd := %s; o_timeout := %s; o_cwd := %s; o_build := %s; "
+        ann = announce_observable(run, conv)
+        obs = ("{| o_mode := OMode MRun; o_verbose_log := %s; o_announce := %s; o_verbose := %s; o_debug := %s; o_gocmd := %s; o_timeout := %s; o_cwd := %s; o_build := %s; "
                "o_env := %s; o_stdin := %s; o_stdout := %s; o_stderr := %s; o_words := %s |}") % (
-            coq_bool(o["verbose_log"]), coq_bool(o["verbose"]), coq_bool(o["debug"]), cs(o["gocmd"]), coq_Z(o["timeout"]),
+            coq_bool(o["verbose_log"]), "None" if (ann is None or o["pre"] is None) else "(Some %s)" % coq_bool(len(o["pre"]) > 0),
+            coq_bool(o["verbose"]), coq_bool(o["debug"]), cs(o["gocmd"]), coq_Z(o["timeout"]),
             cs(o["cwd"].encode()) if route == "mage" else '""', cs(build.encode()) if route == "mage" else '""',
             coq_list(["(%s, %s)" % (cs(k), coq_opt(cs(o["env"][k])) if k in o["env"] else "None") for k in keys]),
             "(Some CallerStdin)" if o["stdin_ok"] else "None", stream[o["stdout_on"]], stream[o["stderr_on"]],
             coq_list([cs(w) for w in o["words"]]))
     else:
-        obs = "(let b := blank %s in {| o_mode := o_mode b; o_verbose_log := false; o_verbose := false; o_debug := false; o_gocmd := \"\"; o_timeout := %s; o_cwd := \"\"; o_build := \"\"; o_env := []; o_stdin := None; o_stdout := None; o_stderr := None; o_words := [] |})" % (
+        obs = "(let b := blank %s in {| o_mode := o_mode b; o_verbose_log := false; o_announce := None; o_verbose := false; o_debug := false; o_gocmd := \"\"; o_timeout := %s; o_cwd := \"\"; o_build := \"\"; o_env := []; o_stdin := None; o_stdout := None; o_stderr := None; o_words := [] |})" % (
             mode, coq_Z(o.get("timeout", 0) or 0))
     # the caller's environment: the entries shared by all runs (header), this project's cache, this run's own
     envterm = "(base ++ %s)" % coq_env([(b"MAGEFILE_CACHE", run["env"][b"MAGEFILE_CACHE"])] + [(k, v) for k, v in own.items() if k != b"MAGEFILE_CACHE"])
